@@ -316,4 +316,350 @@ example : parseLine ([' ', ' '] ++ (['N', 'O', 'P'] ++ ([' ', '\t'] ++ [';', ' '
   have : lower ['N', 'O', 'P'] = lower ['n', 'o', 'p'] := by decide
   rw [this]
 
+/-! ### … also in programs that define macros, outside the macro bodies -/
+
+/-- does the line parse to the directive that opens / closes a macro definition -/
+def opensMacro (l : Str) : Bool :=
+  match parseLine l with
+  | (some (.directiveLine _ d _), _) => d = .macro
+  | _ => false
+
+def closesMacro (l : Str) : Bool :=
+  match parseLine l with
+  | (some (.directiveLine _ d _), _) => d = .endmacro ∨ d = .endm
+  | _ => false
+
+/-- `SameM b ls ls'`: line for line the same parse; and from a line that opens a macro definition to
+    the next line that closes one (`b` = we are in between) the same TEXT -/
+inductive SameM : Bool → List (Nat × Str) → List (Nat × Str) → Prop
+  | nil (b : Bool) : SameM b [] []
+  | out (n : Nat) (l l' : Str) (ls ls' : List (Nat × Str)) :
+      parseLine l = parseLine l' → SameM (opensMacro l) ls ls' → SameM false ((n, l) :: ls) ((n, l') :: ls')
+  | within (n : Nat) (l : Str) (ls ls' : List (Nat × Str)) :
+      SameM (!closesMacro l) ls ls' → SameM true ((n, l) :: ls) ((n, l) :: ls')
+
+theorem sameM_parse : ∀ (b : Bool) (ls ls' : List (Nat × Str)), SameM b ls ls' → SameDocs ls ls' := by
+  intro b ls ls' h
+  induction h with
+  | nil b => exact .nil
+  | out n l l' ls ls' hp _ ih => exact .cons n l l' ls ls' hp ih
+  | within n l ls ls' _ ih => exact .cons n l l ls ls' rfl ih
+
+/-- the mode behind a delivered line: inside a macro definition if that line opens one -/
+def TailMode (nx : Option (Nat × Str)) (b : Bool) : Prop := ∀ x, nx = some x → opensMacro x.2 = true → b = true
+
+theorem tailMode_none (b : Bool) : TailMode none b := by intro x hx; simp at hx
+
+/-- the macro body collector gives the same body on both sides when the texts are the same up to the
+    closing line -/
+theorem skipMacro_same : ∀ (ls ls' : List (Nat × Str)), SameM true ls ls' → ∀ (acc : List (Nat × Str)),
+    (skipMacro acc ls).1 = (skipMacro acc ls').1 ∧
+    SameLine (skipMacro acc ls).2.1 (skipMacro acc ls').2.1 ∧
+    (∃ b, SameM b (skipMacro acc ls).2.2.1 (skipMacro acc ls').2.2.1 ∧ TailMode (skipMacro acc ls).2.1 b) ∧
+    (skipMacro acc ls).2.2.2 = (skipMacro acc ls').2.2.2 := by
+  intro ls
+  induction ls with
+  | nil =>
+    intro ls' h acc
+    cases h with
+    | nil => exact ⟨rfl, trivial, ⟨true, .nil true, tailMode_none _⟩, rfl⟩
+  | cons x xs ih =>
+    intro ls' h acc
+    cases h with
+    | within n l _ xs' hrest =>
+      unfold skipMacro
+      split
+      · rename_i lab d ops o heq
+        have hcl : closesMacro l = decide (d = .endmacro ∨ d = .endm) := by
+          unfold closesMacro; rw [heq]
+        split
+        · rename_i hd
+          have : closesMacro l = true := by rw [hcl]; simpa using hd
+          rw [this] at hrest
+          simp only [Bool.not_true] at hrest
+          cases hrest with
+          | nil => exact ⟨rfl, trivial, ⟨false, .nil false, tailMode_none _⟩, rfl⟩
+          | out n2 l2 l2' r r' hp2 hs2 =>
+            refine ⟨rfl, ⟨rfl, hp2⟩, ⟨_, hs2, ?_⟩, rfl⟩
+            intro x hx hopen; simp only [Option.some.injEq] at hx; subst hx; exact hopen
+        · rename_i hd
+          have : closesMacro l = false := by rw [hcl]; simpa using hd
+          rw [this] at hrest
+          exact ih xs' hrest _
+      · exact ⟨rfl, trivial, ⟨true, .nil true, tailMode_none _⟩, rfl⟩
+      · rename_i h1 h2
+        have : closesMacro l = false := by
+          unfold closesMacro
+          split
+          · rename_i lab d ops o heq; exact absurd heq (h1 lab d ops o)
+          · rfl
+        rw [this] at hrest
+        exact ih xs' hrest _
+
+theorem sameM_tail (b : Bool) (x x' : Nat × Str) (ls ls' : List (Nat × Str)) (h : SameM b (x :: ls) (x' :: ls')) :
+    ∃ b', SameM b' ls ls' := by
+  cases h with
+  | out n l l' _ _ _ hs => exact ⟨_, hs⟩
+  | within n l _ _ hs => exact ⟨_, hs⟩
+
+theorem sameM_head (b : Bool) (x x' : Nat × Str) (ls ls' : List (Nat × Str)) (h : SameM b (x :: ls) (x' :: ls')) :
+    x.1 = x'.1 ∧ parseLine x.2 = parseLine x'.2 := by
+  cases h with
+  | out n l l' _ _ hp _ => exact ⟨rfl, hp⟩
+  | within n l _ _ _ => exact ⟨rfl, rfl⟩
+
+theorem opens_not_closes (l : Str) (h : opensMacro l = true) : closesMacro l = false := by
+  unfold opensMacro at h
+  unfold closesMacro
+  split at h
+  · rename_i lab d ops o heq
+    simp only [decide_eq_true_eq] at h
+    subst h
+    decide
+  · simp at h
+
+theorem sameM_tail_mode (b : Bool) (n n' : Nat) (l l' : Str) (ls ls' : List (Nat × Str))
+    (h : SameM b ((n, l) :: ls) ((n', l') :: ls')) : ∃ b', SameM b' ls ls' ∧ (opensMacro l = true → b' = true) := by
+  cases h with
+  | out _ _ _ _ _ _ hs => exact ⟨_, hs, fun h => h⟩
+  | within _ _ _ _ hs => exact ⟨_, hs, fun h => by rw [opens_not_closes l h]; rfl⟩
+
+theorem skipCond_sameM (all : Bool) : ∀ (ls ls' : List (Nat × Str)) (b : Bool), SameM b ls ls' → ∀ (d : Nat),
+    ∃ b', SameM b' (skipCond all d ls).2.2.1 (skipCond all d ls').2.2.1 ∧ TailMode (skipCond all d ls).1 b' := by
+  intro ls
+  induction ls with
+  | nil =>
+    intro ls' b h d
+    cases h with
+    | nil => exact ⟨b, .nil b, tailMode_none _⟩
+  | cons x xs ih =>
+    intro ls' b h d
+    cases ls' with
+    | nil => cases h
+    | cons x' xs' =>
+      obtain ⟨n, l⟩ := x
+      obtain ⟨n', l'⟩ := x'
+      obtain ⟨hn, hp⟩ := sameM_head b _ _ _ _ h
+      obtain ⟨bt, ht, _⟩ := sameM_tail_mode b _ _ _ _ _ _ h
+      simp only at hn hp
+      subst hn
+      unfold skipCond
+      rw [← hp]
+      split
+      · rename_i lab dd ops o heq
+        split
+        · exact ih xs' bt ht _
+        · split
+          · split
+            · split
+              · exact ih xs' bt ht _
+              · split
+                · rename_i helif
+                  refine ⟨bt, ht, ?_⟩
+                  intro y hy hopen
+                  simp only [Option.some.injEq] at hy
+                  subst hy
+                  exfalso
+                  unfold opensMacro at hopen
+                  rw [heq] at hopen
+                  simp only [decide_eq_true_eq] at hopen
+                  rw [hopen] at helif
+                  exact absurd helif (by decide)
+                · cases xs with
+                  | nil => cases ht with | nil => exact ⟨bt, .nil bt, tailMode_none _⟩
+                  | cons y ys =>
+                    cases xs' with
+                    | nil => cases ht
+                    | cons y' ys' =>
+                      obtain ⟨ny, ly⟩ := y
+                      obtain ⟨ny', ly'⟩ := y'
+                      obtain ⟨b2, h2, hm2⟩ := sameM_tail_mode bt _ _ _ _ _ _ ht
+                      refine ⟨b2, h2, ?_⟩
+                      intro z hz hopen
+                      simp only [Option.some.injEq] at hz
+                      subst hz
+                      exact hm2 hopen
+            · split
+              · exact ih xs' bt ht _
+              · exact ih xs' bt ht _
+          · exact ih xs' bt ht _
+      · exact ⟨true, .nil true, tailMode_none _⟩
+      · exact ih xs' bt ht _
+
+theorem lineStep_endMacro_opens (inc : IncludeFn) (cur : Str) (incs : List Str) (st : PState) (idx : Nat) (t : Str) (re : Bool)
+    (st' : PState) (incs' : List Str) (h : lineStep inc cur incs st idx t re = .ok (st', incs', .endMacro)) :
+    opensMacro t = true := by
+  cases ho : opensMacro t with
+  | true => rfl
+  | false =>
+    exfalso
+    refine lineStep_noEndMacro inc cur incs st idx t re ?_ st' incs' .endMacro h rfl
+    intro lab ops o hp
+    unfold opensMacro at ho
+    rw [hp] at ho
+    simp at ho
+
+/-- one round of the loop after the skipper has delivered related lines -/
+theorem round_sameM (inc : IncludeFn) (cur : Str) (lf : Nat)
+    (ih : ∀ incs st ni ls ls' b, SameM b ls ls' → (ni = .endMacro → b = true) →
+      parseIterWith inc cur lf incs st ni ls = parseIterWith inc cur lf incs st ni ls')
+    (incs : List Str) (st : PState) (nx nx' : Option (Nat × Str)) (re : Bool) (rest rest' : List (Nat × Str)) (o : Bool)
+    (br : Bool) (hnx : SameLine nx nx') (hrest : SameM br rest rest') (hmode : TailMode nx br) :
+    (match (st, nx, re, rest, o) with
+      | (_, _, _, _, true) => Out.oof
+      | (st, none, _, _, false) => Out.ok (st, incs)
+      | (st, some (idx, text), redelivered, rest, false) =>
+        match lineStep inc cur incs st idx text redelivered with
+        | .ok (st', incs', ni') => parseIterWith inc cur lf incs' st' ni' rest
+        | .error e => .error e
+        | .panic s => .panic s
+        | .oof => .oof) =
+    (match (st, nx', re, rest', o) with
+      | (_, _, _, _, true) => Out.oof
+      | (st, none, _, _, false) => Out.ok (st, incs)
+      | (st, some (idx, text), redelivered, rest, false) =>
+        match lineStep inc cur incs st idx text redelivered with
+        | .ok (st', incs', ni') => parseIterWith inc cur lf incs' st' ni' rest
+        | .error e => .error e
+        | .panic s => .panic s
+        | .oof => .oof) := by
+  cases o with
+  | true => rfl
+  | false =>
+    cases nx with
+    | none =>
+      cases nx' with
+      | none => rfl
+      | some x' => exact absurd hnx (by simp [SameLine])
+    | some x =>
+      cases nx' with
+      | none => exact absurd hnx (by obtain ⟨n, l⟩ := x; simp [SameLine])
+      | some x' =>
+        obtain ⟨n, l⟩ := x
+        obtain ⟨n', l'⟩ := x'
+        obtain ⟨hn, hp⟩ := hnx
+        subst hn
+        simp only
+        rw [lineStep_same inc cur incs st n l l' re hp]
+        cases hl : lineStep inc cur incs st n l' re with
+        | ok v =>
+          obtain ⟨st', incs', ni'⟩ := v
+          simp only
+          refine ih incs' st' ni' rest rest' br hrest ?_
+          intro hni
+          subst hni
+          rw [← lineStep_same inc cur incs st n l l' re hp] at hl
+          exact hmode (n, l) rfl (lineStep_endMacro_opens inc cur incs st n l re st' incs' hl)
+        | error e => rfl
+        | panic p => rfl
+        | oof => rfl
+
+theorem parseIterWith_sameM (inc : IncludeFn) (cur : Str) : ∀ (f : Nat) (incs : List Str) (st : PState) (ni : NextItem)
+    (ls ls' : List (Nat × Str)) (b : Bool), SameM b ls ls' → (ni = .endMacro → b = true) →
+      parseIterWith inc cur f incs st ni ls = parseIterWith inc cur f incs st ni ls' := by
+  intro f
+  induction f with
+  | zero => intro incs st ni ls ls' b _ _; rfl
+  | succ lf ih =>
+    intro incs st ni ls ls' b hs hni
+    simp only [parseIterWith]
+    cases ni with
+    | endFile => rfl
+    | newLine =>
+      cases ls with
+      | nil => cases hs with | nil => rfl
+      | cons x xs =>
+        cases ls' with
+        | nil => cases hs
+        | cons x' xs' =>
+          obtain ⟨n, l⟩ := x
+          obtain ⟨n', l'⟩ := x'
+          obtain ⟨hn, hp⟩ := sameM_head b _ _ _ _ hs
+          obtain ⟨bt, ht, hm⟩ := sameM_tail_mode b _ _ _ _ _ _ hs
+          simp only at hn hp
+          subst hn
+          simp only [skipStep]
+          exact round_sameM inc cur lf ih incs st (some (n, l)) (some (n, l')) false xs xs' false bt ⟨rfl, hp⟩ ht (by
+            intro y hy hopen
+            simp only [Option.some.injEq] at hy
+            subst hy
+            exact hm hopen)
+    | endIf =>
+      simp only [skipStep]
+      obtain ⟨h1, h2, _, h4⟩ := skipCond_same false ls ls' (sameM_parse b ls ls' hs) 0
+      obtain ⟨br, h3, hmode⟩ := skipCond_sameM false ls ls' b hs 0
+      generalize skipCond false 0 ls = A at h1 h2 h3 h4 hmode
+      generalize skipCond false 0 ls' = B at h1 h2 h3 h4
+      obtain ⟨a1, a2, a3, a4⟩ := A
+      obtain ⟨b1, b2, b3, b4⟩ := B
+      simp only at h1 h2 h3 h4 hmode
+      subst h2; subst h4
+      exact round_sameM inc cur lf ih incs st a1 b1 a2 a3 b3 a4 br h1 h3 hmode
+    | endIfAll =>
+      simp only [skipStep]
+      obtain ⟨h1, h2, _, h4⟩ := skipCond_same true ls ls' (sameM_parse b ls ls' hs) 0
+      obtain ⟨br, h3, hmode⟩ := skipCond_sameM true ls ls' b hs 0
+      generalize skipCond true 0 ls = A at h1 h2 h3 h4 hmode
+      generalize skipCond true 0 ls' = B at h1 h2 h3 h4
+      obtain ⟨a1, a2, a3, a4⟩ := A
+      obtain ⟨b1, b2, b3, b4⟩ := B
+      simp only at h1 h2 h3 h4 hmode
+      subst h2; subst h4
+      exact round_sameM inc cur lf ih incs st a1 b1 a2 a3 b3 a4 br h1 h3 hmode
+    | endMacro =>
+      have hb : b = true := hni rfl
+      subst hb
+      simp only [skipStep]
+      obtain ⟨h1, h2, ⟨br, h3, hmode⟩, h4⟩ := skipMacro_same ls ls' hs []
+      generalize skipMacro [] ls = A at h1 h2 h3 h4 hmode
+      generalize skipMacro [] ls' = B at h1 h2 h3 h4
+      obtain ⟨a1, a2, a3, a4⟩ := A
+      obtain ⟨b1, b2, b3, b4⟩ := B
+      simp only at h1 h2 h3 h4 hmode
+      subst h1; subst h4
+      exact round_sameM inc cur lf ih incs _ a2 b2 false a3 b3 a4 br h2 h3 hmode
+
+/-- two texts, line by line: each line parses alike, and from a line that opens a macro definition to
+    the next line that closes one the lines are the same text -/
+inductive SameLinesM : Bool → List Str → List Str → Prop
+  | nil (b : Bool) : SameLinesM b [] []
+  | out (l l' : Str) (ls ls' : List Str) : parseLine l = parseLine l' → SameLinesM (opensMacro l) ls ls' →
+      SameLinesM false (l :: ls) (l' :: ls')
+  | within (l : Str) (ls ls' : List Str) : SameLinesM (!closesMacro l) ls ls' → SameLinesM true (l :: ls) (l :: ls')
+
+theorem zip_sameM : ∀ (b : Bool) (L L' : List Str), SameLinesM b L L' → ∀ k,
+    SameM b (List.zip (List.range' k L.length) L) (List.zip (List.range' k L'.length) L') := by
+  intro b L L' h
+  induction h with
+  | nil b => intro k; exact .nil b
+  | out l l' ls ls' hp _ ih =>
+    intro k
+    simp only [List.length_cons, List.range'_succ, List.zip_cons_cons]
+    exact .out k l l' _ _ hp (ih (k + 1))
+  | within l ls ls' _ ih =>
+    intro k
+    simp only [List.length_cons, List.range'_succ, List.zip_cons_cons]
+    exact .within k l _ _ (ih (k + 1))
+
+theorem numbered_sameM (b : Bool) (L L' : List Str) (h : SameLinesM b L L') : SameM b (numbered L) (numbered L') := by
+  unfold numbered
+  rw [List.range_eq_range', List.range_eq_range']
+  exact zip_sameM b L L' h 0
+
+theorem parseStr_sameM (fs : Fs) (src src' : Str) (ctx : Ctx) (h : SameLinesM false (lines src) (lines src')) :
+    parseStr fs src ctx = parseStr fs src' ctx := by
+  unfold parseStr parseIter
+  have hs := numbered_sameM false _ _ h
+  rw [sameDocs_length _ _ (sameM_parse _ _ _ hs)]
+  rw [parseIterWith_sameM _ _ _ _ _ _ _ _ false hs (by intro h; cases h)]
+
+/-- **C14 at the level of the build, programs with macros included**: outside the macro bodies
+    (from a line that opens a macro definition to the next line that closes one the text is kept
+    as it is) any line may be replaced by a line that parses to the same thing, and `build_str`
+    gives exactly the same result -/
+theorem build_same_outside_macro_bodies (fs : Fs) (src src' : Str) (h : SameLinesM false (lines src) (lines src')) :
+    buildStr fs src = buildStr fs src' := by
+  unfold buildStr
+  rw [parseStr_sameM fs src src' _ h]
+
 end Avra.Props.C14
